@@ -445,18 +445,20 @@ func (s *ipSearch) scanF(b *ssa.BasicBlock, from int, stack []*ssa.Call, facts *
 // retFacts: constants returned by the callee become facts about the call's results in the caller.
 func retFacts(call *ssa.Call, rt *ssa.Return, facts *factSet) *factSet {
 	nf := facts
+	// functions with defers spill their results into locals right before returning
+	res := func(i int) ssa.Value { return blockLocalValue(rt.Results[i]) }
 	if len(rt.Results) == 1 {
-		if k := constKind(rt.Results[0]); k != 0 {
+		if k := constKind(res(0)); k != 0 {
 			nf = nf.add(call, k)
-		} else if isFreshErrorValue(rt.Results[0]) || derefBefore(rt.Results[0], rt) {
+		} else if isFreshErrorValue(res(0)) || derefBefore(res(0), rt) {
 			nf = nf.add(call, 4)
 		}
 	} else if refs := call.Referrers(); refs != nil {
 		for _, ref := range *refs {
 			if ex, ok := ref.(*ssa.Extract); ok && ex.Index < len(rt.Results) {
-				if k := constKind(rt.Results[ex.Index]); k != 0 {
+				if k := constKind(res(ex.Index)); k != 0 {
 					nf = nf.add(ex, k)
-				} else if isFreshErrorValue(rt.Results[ex.Index]) || derefBefore(rt.Results[ex.Index], rt) {
+				} else if isFreshErrorValue(res(ex.Index)) || derefBefore(res(ex.Index), rt) {
 					nf = nf.add(ex, 4)
 				}
 			}
@@ -724,6 +726,12 @@ func (p *Prog) cone(fn *ssa.Function) []*ssa.Function {
 		allInstrsRaw(f, func(in ssa.Instruction) {
 			if g := p.syncCallee(in); g != nil {
 				visit(g, d+1)
+			}
+			// deferred calls run (synchronously) before f returns
+			if df, ok := in.(*ssa.Defer); ok {
+				if g := p.unbound(staticCallee(df)); g != nil && p.allFns[g] && len(g.Blocks) > 0 {
+					visit(g, d+1)
+				}
 			}
 		})
 	}
